@@ -154,6 +154,26 @@ def check(R):
     # ---- d --------------------------------------------------------------------
     with R.clause('d'):
         pass
+        # "CAT ... of the accessor": every CAT of the NOC must make it into the accessor's subject list - the scans over the fixed-size
+        # subjects array (add_catid looking for a free slot, matches going through them) cover the WHOLE array: no constant-bounded
+        # sub-range that stops short of the last slot (the resulting ResourceExhausted is discarded by Accessor::for_session by design)
+        import p7
+        NSUB = F.const_val('acl::MAX_ACCESSOR_SUBJECTS')
+        for fn in ('acl::AccessorSubjects::add_catid', 'acl::AccessorSubjects::matches'):
+            short = []
+            nb = 0
+            for b_ in [R.body(fn)] + list(F.nested(fn)):
+                nb += 1
+                for i, j, st in b_.stmts():
+                    rv = st[1]
+                    if rv.get('op') == 'agg' and str(rv.get('adt', '')).startswith('core::ops::range::Range'):
+                        vals = dict(zip(rv.get('fields', ()), rv['a']))
+                        if 'end' in vals:
+                            e = p7._eval_key(p7.expr_key(b_, vals['end']))
+                            if e is not None and e + (1 if 'Inclusive' in rv['adt'] else 0) < NSUB:
+                                short.append(f'{b_.where(i)}: ..{e}')
+            R.expect('P6', fn, f'the scan over the accessor\'s subject slots covers all {NSUB} of them', not short, 'no sub-range that ends before the last slot',
+                     f'sub-range {short} of a {NSUB}-slot array: the last CAT slot is never used, the third CAT of a NOC is silently dropped and an ACL entry naming it no longer grants')
         mt = R.body('acl::AccessorSubjects::matches')
         ids = [c for c in prims.compare_sites(mt) if 'acl::get_noc_cat_id' in src_calls(prims.sources(mt, c[3])) and 'acl::get_noc_cat_id' in src_calls(prims.sources(mt, c[4]))]
         vers = [c for c in prims.compare_sites(mt) if 'acl::get_noc_cat_version' in src_calls(prims.sources(mt, c[3])) and 'acl::get_noc_cat_version' in src_calls(prims.sources(mt, c[4]))]
